@@ -175,10 +175,18 @@ func (g GroupedPoints) SetValue(v reflect.Value) error {
 		if keyK := t.Key().Kind(); keyK != reflect.String {
 			return fmt.Errorf("cannot set map keyed by %v", keyK)
 		}
-		if len(g.Points) > maxStructureSize {
+		// only points that set an entry count, a batch may also hold
+		// tombstones that remove (up to as many) old entries
+		setCount := 0
+		for _, p := range g.Points {
+			if p.Tombstone%2 == 0 {
+				setCount++
+			}
+		}
+		if setCount > maxStructureSize {
 			return fmt.Errorf(
 				"number of points %v exceeds maximum of %v for a map",
-				len(g.Points), maxStructureSize,
+				setCount, maxStructureSize,
 			)
 		}
 		// Ensure points are keyed
